@@ -62,7 +62,7 @@ func runReplayTest(o *checkOpts, e replayEntry, thorough bool) testRun {
 	for target, src := range e.Files {
 		s := src
 		if !filepath.IsAbs(s) {
-			s = filepath.Join("/verif", src)
+			s = filepath.Join(verifRoot, src)
 		}
 		ov["Replace"][filepath.Join(o.repo, target)] = s
 	}
